@@ -169,10 +169,8 @@ static void check_routes(impl::Lexicon& lex, Rng& rng, std::uint64_t inst)
    tcount("routes_checked");
 }
 
-int main(int argc, char** argv)
+static void body(Ctx& C)
 {
-   auto& C = ctx();
-   C.parse(argc, argv);
    C.rule("finite space, enumerated: 26 built-in accessors (325 pairs), 5 symbolic constants, 2 linkages, each checked for spelling, "
           "self-denotation, type, transfer/linkage; identity of all of them across N Lexicon instances (some created and used "
           "concurrently on threads, some after others were destroyed); every spelling->node route (27 identifier->as-type, word->"
@@ -221,6 +219,6 @@ int main(int argc, char** argv)
    C.need("builtin_accessors_checked"); C.need("builtin_pairs_checked"); C.need("routes_checked"); C.need("near_miss_routes_checked");
    C.need("lexicon_instances"); C.need("lexicon_instances_threaded");
    C.exhaustive(true);
-   C.finish();
-   return 0;
 }
+
+int main(int argc, char** argv) { return guarded_main(argc, argv, body); }
